@@ -207,6 +207,15 @@ func (g *generator) buildMethod(genMethod *generatedMethod, context map[string]*
 			funcBlock = append(funcBlock, jen.Return().Nil())
 		}
 	} else if def, err := g.extend.Get(ctx.Signature, context); def != nil {
+		if len(genMethod.RawFieldSettings) > 0 {
+			return builder.NewError(fmt.Sprintf(`Unused struct settings found.
+
+The method delegates to the custom function with the same signature:
+    %s
+
+and therefore these field related settings would be ignored:
+    goverter:%s`, def.OriginID, strings.Join(genMethod.RawFieldSettings, "\n    goverter:")))
+		}
 		jenReturn, err := g.delegateMethod(ctx, def, sourceID)
 		if err != nil {
 			return err
